@@ -1,6 +1,7 @@
 """C13 - aliases mean identity, anchors obey the document rules (ordering / guard clauses on py + pyx)."""
 import sys
 
+from sa import rules_r6 as R6
 from sa import report, rules_order as RO, rules_state as RS
 from sa import rules_repr as RREPR
 from sa import rules_extra as RX
@@ -17,16 +18,21 @@ def run(ctx, repo):
         '(R-TWO-PHASE); pending generators are drained before the document is returned (R-GENERATORS-DRAINED). NOT decided: '
         'the identity relation of the result for arbitrary placements (a run-time relation), libyaml\'s alias events.')
     ctx.trust('CPython ast; sa.cfg dominance/post-dominance; sa.pyxfront lowering of _yaml.pyx')
-    RO.r_alias_guard(ctx, repo)
-    RO.r_anchor_before_children(ctx, repo)
-    RS.r_doc_reset(ctx, repo, entries=[e for e in RS.DOC_ENTRIES if e[1] in ('compose_document', '_compose_document',
+    ctx.call(RO.r_alias_guard, repo)
+    ctx.call(RO.r_anchor_before_children, repo)
+    ctx.call(RS.r_doc_reset, repo, entries=[e for e in RS.DOC_ENTRIES if e[1] in ('compose_document', '_compose_document',
                                                                              'construct_document')])
-    RO.r_construct_cache(ctx, repo)
-    RO.r_two_phase(ctx, repo)
-    RO.r_generators_drained(ctx, repo)
-    RX.r_deep_forwarded(ctx, repo)
-    RREPR.r_hashable_guard(ctx, repo)
-    RX.r_two_phase_kept(ctx, repo)
+    ctx.call(RO.r_construct_cache, repo)
+    ctx.call(RO.r_two_phase, repo)
+    ctx.call(RO.r_generators_drained, repo)
+    ctx.call(RX.r_deep_forwarded, repo)
+    ctx.call(RREPR.r_hashable_guard, repo)
+    ctx.call(RX.r_two_phase_kept, repo)
+    ctx.call(R6.r_compose_via_dispatch, repo)
+    ctx.call(R6.r_merge_cycle_cut, repo)
+    ctx.call(R6.r_generator_drained, repo)
+    ctx.call(R6.r_no_mutate_while_iterating, repo, ['composer', 'constructor'])
+
 
 if __name__ == '__main__':
     sys.exit(report.main('C13', 'other', run))
